@@ -110,8 +110,13 @@ class Tolerancing:
             self.compensator.run()
 
             # record the optimized values
-            result = {f'C{i}: {str(var)}': var.value
-                      for i, var in enumerate(self.compensator.variables)}
+            result = {}
+            for i, var in enumerate(self.compensator.variables):
+                value = var.value
+                if var.apply_scaling:
+                    # report lens units, not the optimiser's scaled units
+                    value = var.variable.inverse_scale(value)
+                result[f'C{i}: {str(var)}'] = value
         return result
 
     def evaluate(self):
